@@ -2,7 +2,7 @@
 newlines and line directives between them."""
 import random
 
-MARKERS = ['\n# %d "inc/m%d.h"\n', '\n#line %d\n', '\n# %d "m%d.h" 1 3\n']
+MARKERS = ['\n# %d "inc/m%d.h"\n', '\n#line %d\n', '\n# %d "m%d.h" 1 3\n', '\n# %d "run%d.h"\n#line 77\n', '\n# %d "run%d.h" 2\n# 55\n# 66\n']
 
 
 def needs_space(a, b):
